@@ -5,6 +5,7 @@ import procoracle as po
 FAMILIES = ['process']
 BRIDGES = ['br_proc_', 'br_nonideal_']
 PROPS_V = 'Props/C18.v'
+EXTRA_TARGETS = ['Model/NumCheck.vo']
 BUDGET = {'quick': 200, 'thorough': 5000}
 ORACLE_RULE = ('coarse-discretisation stream: random runs of the 4 process kinds in which one step removes 10%..1000% of the feed; every returned trajectory '
                'is checked for positive mass, fractions in [0,1], positive finite temperature, finite fluxes and heats; non-trivial = the run returned')
@@ -33,9 +34,36 @@ def check(pm):
 
 
 def oracle(rng, tier):
+    import gens
     while True:
         cfg = po.random_config(rng, coarse=True)
         cfg['n'] = rng.choice([2, 3, 4, 6])
+        if rng.random() < 0.6:
+            # directed: step length from the actual step-0 fluxes so that one step removes 25%..130% of the feed, with
+            # moderately selective membranes and mid-range feeds (both components can be over-removed in the same step)
+            cfg['x0'] = rng.uniform(0.2, 0.8)
+            cfg['basis'] = 'weight'
+            cfg['P2'] = cfg['P1'] * gens.loguniform(rng, 0.05, 5.0)
+            if rng.random() < 0.6:
+                # near the membrane's non-selective point (permeate composition ~ feed composition): there an over-sized
+                # step exhausts BOTH components at once and the composition validator cannot notice
+                try:
+                    import pyvaporation as pv
+                    from pyvaporation.mixtures.mixture import get_partial_pressures
+                    pf = get_partial_pressures(cfg['T0'], cfg['m'], pv.Composition(p=cfg['x0'], type='weight'), cfg['ct'])
+                    cfg['P2'] = cfg['P1'] * (pf[0] / pf[1]) * ((1 - cfg['x0']) / cfg['x0']) * rng.uniform(0.8, 1.25)
+                    cfg['mode'], cfg['Tp'], cfg['pp'] = 'vac', None, None
+                except po.ACCEPTABLE:
+                    pass
+            try:
+                probe = dict(cfg)
+                probe['n'] = 1
+                pm0, _, _ = po.run(probe)
+                tot = (pm0.partial_fluxes[0][0] + pm0.partial_fluxes[0][1]) * cfg['A']
+                if tot > 0:
+                    cfg['dt'] = rng.uniform(0.25, 1.3) * cfg['m0'] / tot
+            except po.ACCEPTABLE:
+                pass
         try:
             pm, _, _ = po.run(cfg)
         except po.ACCEPTABLE:
@@ -43,6 +71,14 @@ def oracle(rng, tier):
             continue
         ok, detail = check(pm)
         yield {'kind': cfg['kind'] + ':returned', 'case': po.describe(cfg), 'ok': ok, 'detail': detail, 'nontrivial': True}
+
+
+def correspondence(tier, seed):
+    import corr_numeric
+    budget = {'process': 30}
+    if tier == 'thorough':
+        budget = {k: v * 12 for k, v in budget.items()}
+    return corr_numeric.run(seed, budget, nmax=30 if tier == 'quick' else 200, tag='C18')
 
 
 def replay(rep):
